@@ -305,3 +305,13 @@ def canary(env):
     f = install_svd(env)
     geo.svdtf(src, tgt)
     env.eq('rotation is U Vh (ignoring reflections)', rec[0][:, 0:3], f['U'] @ f['Vh'])
+
+
+# svdtf / svdstf hand their optimum to mat2SE3 / mat2Sim3(check=False): "exact correspondences under a true transform are reproduced
+# exactly for rotations over ALL of SO(3)" rests on the matrix -> quaternion extraction being right in every one of its branch regions
+# (trace, x-, y-, z-dominant) - the contracts of c11_convert.py, discharged in this check too.
+from contracts import c11_convert as _c11
+obligation('C17.callee.mat2SO3.regions', functions=['pypose.lietensor.convert:mat2SO3'], max_paths=32,
+           note='callee contract of svdtf/svdstf (same contract function as C11.mat2SO3.regions)')(_c11.m2so3)
+obligation('C17.callee.mat2SO3.masks', functions=['pypose.lietensor.convert:mat2SO3'], max_paths=32,
+           note='callee contract of svdtf/svdstf (same contract function as C11.mat2SO3.masks)')(_c11.masks)
